@@ -39,12 +39,12 @@ def _case(job: Tuple[str, dict]) -> dict:
         signal.signal(signal.SIGALRM, old)
 
 
-def run_family(ctx: Ctx, own: str, n_quick: int, n_thorough: int, extra: List[dict] = ()) -> None:  # type: ignore[assignment]
+def run_family(ctx: Ctx, own: str, n_quick: int, n_thorough: int, extra: List[dict] = ()) -> List[dict]:  # type: ignore[assignment]
     from props import wirefam as wf
     rng = random.Random(ctx.seed * 7919 + int(own[1:]))
     n = ctx.pick(n_quick, n_thorough)
     msgs = [wf.gen_message(rng, big=(k % 4 == 0)) for k in range(n)] + list(extra)
-    jobs = [('%s-%d' % (own.lower(), k), m) for k, m in enumerate(msgs)]
+    jobs = [(m.get('_id') or '%s-%d' % (own.lower(), k), m) for k, m in enumerate(msgs)]
     if len(jobs) >= 64:
         with mp.get_context('fork').Pool(16 if ctx.thorough else 8) as pool:
             cases = pool.map(_case, jobs, chunksize=8)
@@ -112,3 +112,4 @@ def run_family(ctx: Ctx, own: str, n_quick: int, n_thorough: int, extra: List[di
     })
     ctx.assumptions += ['entries interned by the harness from the input description (name spelling, type, class bits, TTL, rdata)',
                         'every single entry fits one 8966-byte datagram (property domain)']
+    return cases
